@@ -485,6 +485,8 @@ class Interp:
             return True
         if isinstance(v, (PyList, PyDict)):
             return len(st.cell(v.oid)) > 0
+        if isinstance(v, V.FiniteMap):
+            return Sym("bool", tm.Or(*[p for p, _ in st.cell(v.oid).values()]))
         if isinstance(v, SymObjSeq):
             return Sym("bool", tm.Ne(v.length, tm.Int(0)))
         if isinstance(v, Opaque):
